@@ -146,11 +146,11 @@ def compare(exp, got):
     return d
 
 
-def run_replay(ctx, exe, args, total, log_path, timeout=3000, unit_div=1, max_fatal=40):
+def run_replay(ctx, exe, args, total, log_path, timeout=3000, unit_div=1, max_fatal=40, start=0):
     """Like vlib.run_batches, for a build in which ASan reports and UBSan vptr reports are recoverable: every report is attributed to
     the unit announced by the driver's `@@X n` stderr marker; a fatal exit is recorded for the last announced unit and the run resumes."""
     import re
-    k, sums, deaths, nfatal = 0, [], [], 0
+    k, sums, deaths, nfatal = start, [], [], 0
     open(log_path, "w").close()
     env = {"ASAN_OPTIONS": vlib.SAN_ENV["ASAN_OPTIONS"] + ":halt_on_error=0:suppress_equal_pcs=0",
            "UBSAN_OPTIONS": "print_stacktrace=1:halt_on_error=0:exitcode=72"}
@@ -227,8 +227,8 @@ def race_scenarios(tier, rng):
                 for cl in ("id", "dd"):
                     r.append(S(n, end, [0] * (n + 1), onStop, cl))
         return r
-    plan = [("si", (0, 2), (True,), 8 if quick else 80), ("tu", (0, 2), (False, True), 10 if quick else 160), ("te", (0, 2), (True,), 3 if quick else 30),
-            ("si_tu", (0, 2), (True, False), 2 if quick else 40), ("tu_si", (0,), (True, False), 2 if quick else 40), ("te_tu", (0,), (True,), 1 if quick else 20)]
+    plan = [("si", (0, 2), (True,), 8 if quick else 48), ("tu", (0, 2), (False, True), 10 if quick else 100), ("te", (0, 2), (True,), 3 if quick else 20),
+            ("si_tu", (0, 2), (True, False), 2 if quick else 20), ("tu_si", (0,), (True, False), 2 if quick else 20), ("te_tu", (0,), (True,), 1 if quick else 10)]
     for kind, conss, stoppers, take in plan:
         P = RACE_PIPES[kind]
         combos = []
@@ -281,12 +281,26 @@ def run_race(ctx):
     exe = vlib.build(ctx, "stream_race_driver", [os.path.join(HERE, "driver_race.cpp")], lib=["inplace_stop_token.cpp", "async_stack.cpp", "exception.cpp"],
                      incs=[HERE], opt="-O0", recover=True, extra=["-fsanitize-recover=vptr"])
     DIV = 100000
-    runs = [("dfs", ["--mode", "dfs", "--scenarios", sp, "--bound", 2 if ctx.quick else 3, "--cap", 60 if ctx.quick else 1200]),
-            ("random", ["--mode", "random", "--scenarios", sp, "--seed", ctx.seed, "--cap", 25 if ctx.quick else 400])]
+    runs = [("dfs", ["--mode", "dfs", "--scenarios", sp, "--bound", 2, "--cap", 30 if ctx.quick else 40, "--stopsites", 0 if ctx.quick else 1]),
+            ("random", ["--mode", "random", "--scenarios", sp, "--seed", ctx.seed, "--cap", 10 if ctx.quick else 15, "--stopsites", 0 if ctx.quick else 1])]
     for mode, args in runs:
         lp = os.path.join(ctx.work, "race_%s.ndjson" % mode)
         t0 = time.time()
-        sums, deaths = run_replay(ctx, exe, args, len(scns), lp, timeout=2400, unit_div=DIV, max_fatal=12)
+        # the scenarios are split over several driver processes (a controlled execution is dominated by thread hand-off latency)
+        par = max(1, min(8, vlib.NCPU, len(scns)))
+        bounds = [round(i * len(scns) / par) for i in range(par + 1)]
+
+        def part(i):
+            return run_replay(ctx, exe, args, bounds[i + 1], lp + ".%d" % i, timeout=2400, unit_div=DIV, max_fatal=6, start=bounds[i])
+        sums, deaths = [], []
+        with concurrent.futures.ThreadPoolExecutor(max_workers=par) as ex:
+            for sm, dt in ex.map(part, range(par)):
+                sums += sm
+                deaths += dt
+        with open(lp, "w") as f:
+            for i in range(par):
+                f.write(open(lp + ".%d" % i).read())
+                os.remove(lp + ".%d" % i)
         execs = sum(s.get("execs", 0) for s in sums)
         rep.evaluations += execs
         tainted = set()
